@@ -74,6 +74,8 @@ def main():
         short = fi.module.short
         if short in contract.SKIP_MODULES or short.startswith(("plotting.vega", "plotting.folium")):
             continue
+        if contract.is_stub(fi):
+            continue
         key = contract.func_key(fi)
         rel = "src/physt/" + fi.module.relpath.split("src/physt/")[-1] if "src/physt/" in fi.module.relpath else fi.module.relpath
         local = (fi.cls.name + "." if fi.cls is not None else "") + fi.name
